@@ -295,12 +295,13 @@ func (c *GroupCoordinator) Heartbeat(ctx context.Context, req *kmsg.HeartbeatReq
 		c.mu.Unlock()
 		return mkResp(protocol.ILLEGAL_GENERATION)
 	}
-	if state.state != groupStateStable {
-		c.mu.Unlock()
-		return mkResp(protocol.REBALANCE_IN_PROGRESS)
-	}
+	// A heartbeat from a current member of the current generation keeps its session
+	// alive also while the group is rebalancing; the reply then tells it to rejoin.
 	member.lastHeartbeat = time.Now()
 	resp := mkResp(protocol.NONE)
+	if state.state != groupStateStable {
+		resp.ErrorCode = protocol.REBALANCE_IN_PROGRESS
+	}
 	if err := c.persistGroupLocked(ctx, req.Group, state); err != nil {
 		resp.ErrorCode = protocol.UNKNOWN_SERVER_ERROR
 	}
